@@ -9,6 +9,12 @@ whose modification adds one element (the writer's branch) to a collection in the
 same module is model-checked with that configuration and its behaviours are replayed on the real
 CompleteStageHandler: writer w = the handler completing upstream stage u<w>; the projection maps
 "u<w> in _completed_branches" to the context key k<w>.  No acknowledged branch may be lost.
+
+Pair "cancel": CancelStageHandler (writer 4) against CompleteTaskHandler (writer 3) on one RUNNING stage
+with one RUNNING task.  Both read the stage, decide from what they read (Store.tla: Guarded - Skip,
+TaskGuard), save transactionally under retry_on_concurrency_error.  Whatever the interleaving, the
+stage ends CANCELED and the task ends SUCCEEDED exactly if its completion was saved (formula
+CancelVsComplete): the acknowledged task status is never overwritten by the cancel, and vice versa.
 """
 from __future__ import annotations
 
@@ -95,7 +101,65 @@ class JoinReplayer(CS.Replayer):
                 for w, u in self.ups.items()}
 
 
+class CancelReplayer(CS.Replayer):
+    def _setup(self, c: dict) -> None:
+        from stabilize.models.stage import StageExecution
+        from stabilize.models.status import WorkflowStatus
+        from stabilize.models.task import TaskExecution
+        from stabilize.models.workflow import Workflow
+
+        self.n += 1
+        n = self.n
+        self.wid, self.sid = f"wf{n}", f"s{n}"
+        self.task_ids = {self._tid("t1")}
+        self.aux_ids = {}
+        wf = Workflow(id=self.wid, application="verif", name="c07-cancel", status=WorkflowStatus.RUNNING, start_time=1)
+        st = StageExecution(id=self.sid, ref_id="s", type="verif", name="s", status=WorkflowStatus.RUNNING, start_time=1,
+                            context={"k1": 1},
+                            tasks=[TaskExecution(id=self._tid("t1"), name="t1", implementing_class="verif",
+                                                 status=WorkflowStatus.RUNNING, stage_start=True, stage_end=True, start_time=1)])
+        wf.stages = [st]
+        st.execution = wf
+        self._wf = wf
+        self.store.store(wf)
+
+    def _job(self, c: dict):
+        from stabilize.handlers.cancel_stage import CancelStageHandler
+        from stabilize.handlers.complete_task import CompleteTaskHandler
+        from stabilize.models.status import WorkflowStatus
+        from stabilize.queue.messages import CancelStage, CompleteTask
+        from stabilize.resilience.config import HandlerConfig
+
+        hs = self.handlers.get("cancel")
+        if hs is None:
+            cfg = HandlerConfig(concurrency_max_retries=3, concurrency_min_delay_ms=1, concurrency_max_delay_ms=1, concurrency_jitter=0.0)
+            hs = (CancelStageHandler(self.queue, self.store, handler_config=cfg),
+                  CompleteTaskHandler(self.queue, self.store, handler_config=cfg))
+            self.handlers["cancel"] = hs
+        wid, sid, tid = self.wid, self.sid, self._tid("t1")
+
+        def job(wt) -> None:
+            wt.stage = wt.aux = None
+            try:
+                if wt.w == 4:
+                    hs[0].handle(CancelStage(execution_type="PIPELINE", execution_id=wid, stage_id=sid))
+                else:
+                    hs[1].handle(CompleteTask(execution_type="PIPELINE", execution_id=wid, stage_id=sid, task_id=tid,
+                                              status=WorkflowStatus.SUCCEEDED))
+                wt.res = "ok"
+            except Exception as e:  # noqa: BLE001
+                wt.res = "CE" if type(e).__name__ == "ConcurrencyError" else type(e).__name__ + ":" + str(e)[:200]
+
+        return job
+
+    def read_db(self, c: dict) -> dict:
+        d = super().read_db({**c, "writers": []})
+        d["aux"] = {str(w): {"ver": 0, "ctx": ["k1"]} for w in c["writers"]}
+        return d
+
+
 CS.SCENARIOS["join"] = JoinReplayer
+CS.SCENARIOS["cancel"] = CancelReplayer
 
 
 def pair_configs(tier: str) -> list[dict]:
@@ -113,6 +177,12 @@ def pair_configs(tier: str) -> list[dict]:
         c = CS.mk("join-DISCRIMINATOR-w3", writers=(2, 3, 4), phase=True, retries=4, status=(), task=(), outs=(), reduced=True)
         c["join"] = "DISCRIMINATOR"
         cs.append(c)
+    for c in cs:
+        c["scenario"] = "join"
+    c = CS.mk("cancel-vs-completetask", writers=(3, 4), txn=True, retries=3, status=(4,), task=(3, 4), outs=(), ctxs=(),
+              guarded=True, init="RUNNING")
+    c["scenario"] = "cancel"
+    cs.append(c)
     return cs
 
 
@@ -128,7 +198,8 @@ def run_pairs(rep, tier: str, seed: int) -> dict:
             f_mc = {c["name"]: ex.submit(CS.run_mc, c) for c in cs}
             mc = {k: f.result() for k, f in f_mc.items()}
             exported = {k: f.result() for k, f in f_ex.items()}
-        out = {"pair": "two/three upstream CompleteStage handlers -> _completed_branches of one join stage",
+        out = {"pairs": ["two/three upstream CompleteStage handlers -> _completed_branches of one join stage",
+                         "CancelStage handler vs CompleteTask handler on one running stage"],
                "configs": {}, "states": 0, "transitions": 0, "schedules_enumerated": 0, "schedules_replayed": 0}
         work = []
         for c in cs:
@@ -144,14 +215,18 @@ def run_pairs(rep, tier: str, seed: int) -> dict:
             out["schedules_enumerated"] += e["count"]
             out["configs"][c["name"]] = {"states": m["states"], "behaviours": e["count"]}
             work.append((c, CS.pick_parts(e["chunks"], e["count"], 500 if tier == "quick" else 1000000, rnd)))
-        n, fails, wall, per = CS.replay_all(work, "DELETE", None, scenario="join")
+        n, fails, wall, per = 0, [], 0.0, {}
+        for scen in ("join", "cancel"):
+            n1, f1, w1, p1 = CS.replay_all([(c, parts) for c, parts in work if c["scenario"] == scen], "DELETE", None, scenario=scen)
+            n, fails, wall = n + n1, fails + f1, wall + w1
+            per.update(p1)
         out["schedules_replayed"] = n
         out["replay_wall_s"] = round(wall, 1)
         by = {c["name"]: c for c in cs}
         drift = 0
         for f in fails:
             c = by[f["config"]]
-            doc = {"kind": "pair", "scenario": "join", "config": c, "behaviour": f["behaviour"], "journal": f["journal"],
+            doc = {"kind": "pair", "scenario": c["scenario"], "config": c, "behaviour": f["behaviour"], "journal": f["journal"],
                    "failure": {k: f[k] for k in ("kind", "at", "what", "expected", "observed")}}
             if f["kind"] == "machinery":
                 rep.machinery_failure(f"pair replay {f['config']}#{f['beh']}: {f['what']}")
